@@ -78,8 +78,9 @@ def main():
         shutil.rmtree(out, ignore_errors=True)
     d = os.path.join(V, "seeded", a.sid)
     os.makedirs(d, exist_ok=True)
-    shutil.copy(a.patch, os.path.join(d, "patch.diff"))
-    shutil.copy(a.demo, os.path.join(d, "demo.py"))
+    for src, dst in ((a.patch, "patch.diff"), (a.demo, "demo.py")):
+        if os.path.abspath(src) != os.path.join(d, dst):
+            shutil.copy(src, os.path.join(d, dst))
     if a.notes and os.path.exists(a.notes):
         shutil.copy(a.notes, os.path.join(d, "notes.md"))
         meta["needs_to_manifest"] = open(a.notes).read()[:1500]
